@@ -43,7 +43,15 @@ var EquivSpellings = map[string][]string{
 	},
 }
 
-var ResourceNames = []string{"r1", "r2", "r3", "r4"}
+var ResourceNames = []string{"r1", "r2", "r3", "r4", "r5"}
+
+func init() {
+	// r5: a URI whose cache key is exactly 216 bytes (a whole number of 48-character base64
+	// fragments, longer than one file name): the file-system backend's naming boundary
+	base := "http://a.test/k216/"
+	pad := strings.Repeat("x", 216-len(base))
+	EquivSpellings["r5"] = []string{base + pad, "HTTP://A.TEST:80/k216/" + pad, "http://a.test/k216/./" + pad}
+}
 
 func Spelling(t *rapid.T, label, res string, equivPct int) string {
 	sp := EquivSpellings[res]
